@@ -874,9 +874,13 @@ _OPS = ["UExt.keyword", "UExt.keywordKeys", "UExt.setKeyword", "UExt.removeKeywo
         "TExt.tfieldKeys", "TExt.setTField", "TExt.removeTField", "TExt.clearTFields", "PExt.hasTag", "PExt.addTag", "PExt.removeTag", "PExt.clearTags",
         "LangId.fromParts", "LangId.intoParts", "LangId.variants", "LangId.setVariants", "LangId.hasVariant", "LangId.clearVariants",
         "Locale.fromParts", "Locale.intoParts", "Locale.isMatch"]
-SRC_TIE = {"C01": _SUBTAGS + _EXT + _PARSE_LI + _PARSE_LOC + _OPS, "C02": _SUBTAGS + _PARSE_LI, "C03": _SUBTAGS + _EXT + _PARSE_LI + _PARSE_LOC,
+# the likely-subtags cascade, maximize / minimize, character_direction in both feature configurations (tables = the model's parameters)
+_LIKELY = ["Language.isEmpty", "Likely.langFromParts", "Likely.maximize", "Likely.minimize", "LangId.maximize", "LangId.minimize",
+           "LangId.direction", "LangId.directionNoLikely"]
+SRC_TIE = {"C01": _SUBTAGS + _EXT + _PARSE_LI + _PARSE_LOC + _OPS + _LIKELY,
+           "C06": _LIKELY, "C07": _LIKELY, "C08": _LIKELY, "C14": _LIKELY, "C20": _LIKELY, "C02": _SUBTAGS + _PARSE_LI, "C03": _SUBTAGS + _EXT + _PARSE_LI + _PARSE_LOC,
            "C04": _SUBTAGS + _EXT + _PARSE_LI + _PARSE_LOC + _FMT, "C05": _SUBTAGS + _EXT + _PARSE_LI + _PARSE_LOC + _FMT,
-           "C09": _SUBTAGS + _EXT + _PARSE_LI + _PARSE_LOC, "C10": _SUBTAGS + _EXT + _OPS + _FMT + _PARSE_LOC, "C11": _MATCH + ["Locale.isMatch"], "C12": ["Language.asStr"] + _FMT + _OPS, "C19": _PARSE_LI + _FMT,
+           "C09": _SUBTAGS + _EXT + _PARSE_LI + _PARSE_LOC, "C10": _SUBTAGS + _EXT + _OPS + _FMT + _PARSE_LOC + ["LangId.maximize", "LangId.minimize"], "C11": _MATCH + ["Locale.isMatch"], "C12": ["Language.asStr"] + _FMT + _OPS, "C19": _PARSE_LI + _FMT,
            "C13": _SUBTAGS + _PARSE_LI + _PARSE_LOC, "C15": _SUBTAGS, "C17": _SUBTAGS + _PARSE_LI + _FMT + _OPS}
 
 
@@ -1277,6 +1281,12 @@ def check(pid, tier, seed):
             with R.Lock():
                 ok_tr, _ = R.lake_build(["UnicLocale.SrcTie.Transfer"])
             source_tie["transfer_theorems"] = "UL.SrcTie.Transfer.* built" if ok_tr else "UL.SrcTie.Transfer does not build"
+        if pid in ("C06", "C07", "C08", "C14") and source_tie["proved"] == source_tie["of"]:
+            with R.Lock():
+                ok_tr, _ = R.lake_build(["UnicLocale.SrcTie.TransferLikely"])
+            source_tie["transfer_theorems"] = ("UL.SrcTie.TransferLikely.* built (never panics on the compiled tables, = the CLDR dictionary, only adds "
+                                               "and fills all three: about the cascade as the source text defines it)"
+                                               if ok_tr else "UL.SrcTie.TransferLikely does not build")
         if pid in ("C01", "C02", "C03", "C04", "C05", "C09", "C13") and source_tie["proved"] == source_tie["of"]:
             # ... and about the source-derived parsers (loops, mutation, the subtag iterator): SrcTie/TransferParse.lean
             with R.Lock():
